@@ -216,7 +216,10 @@ where
     #[allow(clippy::should_implement_trait)]
     #[inline]
     pub fn next(&mut self) -> Option<Result<(&mut R, O), E>> {
-        self.done_recv.recv().unwrap().map(move |result| {
+        // A closed channel means that the reader thread ended without sending the end
+        // marker (reader_init failed): this is the end of the results, the error
+        // is returned by the function that started the threads
+        self.done_recv.recv().ok()?.map(move |result| {
             match result {
                 Ok((r, o)) => {
                     let prev_rset = ::std::mem::replace(&mut self.current_recordset, r);
